@@ -683,7 +683,23 @@ fn child_body(run: &E1Run, isos: &[Vec<Arc<Iso>>], raw_fd: i32) -> RunReport {
     rep.capped = out.capped;
     rep.choices = out.choices.clone();
     rep.stalled = out.stalled.clone();
-    if out.stalled.is_some() {
+    if let Some(msg) = &out.stalled {
+        if let Some(d) = msg.strip_prefix("DEADLOCK: ") {
+            // every call terminates alone (the oracle answered), together they never return
+            rep.stalled = None;
+            for (p, c) in [("C17", "deadlock-between-concurrent-calls"), ("C01", "hang")] {
+                rep.violations.push(Violation {
+                    property: p.into(),
+                    class: c.into(),
+                    thread: 0,
+                    op_idx: 0,
+                    op: None,
+                    expected: "every call returns, as it does in isolation".into(),
+                    got: d.to_string(),
+                    needs: "history-or-schedule".into(),
+                });
+            }
+        }
         return rep;
     }
     for c in out.calls.iter().flatten() {
@@ -703,6 +719,7 @@ fn child_body(run: &E1Run, isos: &[Vec<Arc<Iso>>], raw_fd: i32) -> RunReport {
     rep.probes.insert("emit_fault_while_other_thread_in_call".into(), out.probes.emit_fault_while_other_in_call);
     rep.probes.insert("switch_between_emits_of_one_call".into(), out.probes.switches_between_emits_of_one_call);
     rep.probes.insert("switch_into_thread_that_is_mid_call".into(), out.probes.calls_overlapping);
+    rep.probes.insert("lock_blocked_thread_passed_over".into(), out.probes.lock_blocked_threads_passed_over);
     let mut cells: Vec<String> = out.cells.iter().map(|(a, s, b)| format!("{}|{}|{}", a, s, b)).collect();
     cells.sort();
     cells.dedup();
@@ -742,7 +759,7 @@ pub fn exec_in_child(run: &E1Run, isos: &[Vec<Arc<Iso>>]) -> RunReport {
     let mut timed_out = false;
     loop {
         let mut pfd = libc::pollfd { fd: rfd, events: libc::POLLIN, revents: 0 };
-        let r = unsafe { libc::poll(&mut pfd, 1, 120_000) };
+        let r = unsafe { libc::poll(&mut pfd, 1, 40_000) };
         if r == 0 {
             timed_out = true;
             unsafe { libc::kill(pid, libc::SIGKILL) };
@@ -766,7 +783,7 @@ pub fn exec_in_child(run: &E1Run, isos: &[Vec<Arc<Iso>>]) -> RunReport {
         Some(r) if !timed_out && libc::WIFEXITED(status) && libc::WEXITSTATUS(status) == 0 => r,
         _ => {
             let how = if timed_out {
-                "no report within 120 s".to_string()
+                "no report within 40 s".to_string()
             } else if libc::WIFSIGNALED(status) {
                 format!("run process killed by signal {}", libc::WTERMSIG(status))
             } else {
@@ -881,12 +898,81 @@ pub fn oracle_level_checks(run: &E1Run, rng: &mut Rng, oracle: &mut Oracle) -> (
             }
         }
     }
+    // log is the identity: removing every evaluated `log` wrapper must not change the result
+    if rng.chance(1, 3) {
+        let op = *rng.pick(&applies);
+        let rule: Value = serde_json::from_str(&op.args[0]).unwrap();
+        let stripped = strip_logs(&rule);
+        if stripped != rule {
+            let plain = Op::apply(&stripped.to_string(), &op.args[1], false);
+            let a = oracle.query(op, ORACLE_STACK_KB);
+            let b = oracle.query(&plain, ORACLE_STACK_KB);
+            n += 1;
+            let budget = |r: &Res| matches!(r, Res::Crash(m) if m.starts_with("over-budget"));
+            if a.res != b.res && !budget(&a.res) && !budget(&b.res) {
+                v.push(Violation {
+                    property: "C17".into(),
+                    class: "log-changes-the-result".into(),
+                    thread: 0,
+                    op_idx: 0,
+                    op: Some(op.clone()),
+                    expected: format!("{} (result of the same rule with its log wrappers removed: {})", res_text(&b.res), stripped),
+                    got: res_text(&a.res),
+                    needs: "input-only".into(),
+                });
+            }
+        }
+    }
+    // one line per evaluated log: without iteration operators no log node can run twice
+    if rng.chance(1, 2) {
+        let op = *rng.pick(&applies);
+        let rule: Value = serde_json::from_str(&op.args[0]).unwrap();
+        let (logs, iterates) = count_logs(&rule);
+        if logs > 0 && !iterates && !op.args[1].contains("\"log\"") {
+            let a = oracle.query(op, ORACLE_STACK_KB);
+            n += 1;
+            if a.emits > logs as u64 {
+                v.push(Violation {
+                    property: "C17".into(),
+                    class: "more-log-lines-than-log-operators".into(),
+                    thread: 0,
+                    op_idx: 0,
+                    op: Some(op.clone()),
+                    expected: format!("at most {} line(s): the rule holds {} `log` operator(s) and no iteration", logs, logs),
+                    got: format!("{} emits: {:?}", a.emits, a.emitted),
+                    needs: "input-only".into(),
+                });
+            }
+        }
+    }
+    // every line written by log is one complete JSON text
+    if rng.chance(1, 2) {
+        let op = *rng.pick(&applies);
+        let a = oracle.query(op, ORACLE_STACK_KB);
+        if !a.emitted.is_empty() {
+            n += 1;
+            let bad = !a.emitted.ends_with('\n') || a.emitted.lines().any(|l| serde_json::from_str::<Value>(l).is_err());
+            if bad {
+                v.push(Violation {
+                    property: "C17".into(),
+                    class: "log-line-is-not-one-json-text".into(),
+                    thread: 0,
+                    op_idx: 0,
+                    op: Some(op.clone()),
+                    expected: "newline-terminated lines, each one JSON text".into(),
+                    got: format!("{:?}", a.emitted),
+                    needs: "input-only".into(),
+                });
+            }
+        }
+    }
     if rng.chance(1, 8) {
         let op = *rng.pick(&applies);
         let a = oracle.query(op, ORACLE_STACK_KB);
         let b = oracle.requery(op, ORACLE_STACK_KB);
         n += 1;
-        if *a != b {
+        let budget = |r: &Res| matches!(r, Res::Crash(m) if m.starts_with("over-budget"));
+        if *a != b && !budget(&a.res) && !budget(&b.res) {
             v.push(Violation {
                 property: "C17".into(),
                 class: "isolated-result-not-stable".into(),
@@ -900,6 +986,101 @@ pub fn oracle_level_checks(run: &E1Run, rng: &mut Rng, oracle: &mut Oracle) -> (
         }
     }
     (v, n)
+}
+
+const ALL_OPS: &[&str] = &[
+    "==", "!=", "===", "!==", "!", "!!", "<", "<=", ">", ">=", "+", "-", "*", "/", "%", "max", "min", "merge", "in", "cat", "substr", "log", "var", "missing",
+    "missing_some", "if", "?:", "or", "and", "map", "filter", "reduce", "all", "some", "none",
+];
+const ITER_OPS: &[&str] = &["map", "filter", "reduce", "all", "some", "none"];
+
+fn as_operation(v: &Value) -> Option<(&str, &Value)> {
+    let o = v.as_object()?;
+    if o.len() != 1 {
+        return None;
+    }
+    let (k, args) = o.iter().next()?;
+    if ALL_OPS.contains(&k.as_str()) {
+        Some((k.as_str(), args))
+    } else {
+        None
+    }
+}
+
+/// Remove `log` wrappers at positions that are certainly evaluated: the direct operands of operator
+/// objects reachable from the root through operator objects only. (An array or a non-operator object
+/// met on the way is a literal and is left alone.)
+pub fn strip_logs(v: &Value) -> Value {
+    let (key, args) = match as_operation(v) {
+        Some(x) => x,
+        None => return v.clone(),
+    };
+    if key == "log" {
+        match args {
+            Value::Array(a) if a.len() == 1 => return strip_logs(&a[0]),
+            Value::Array(_) => return v.clone(),
+            other => return strip_logs(other),
+        }
+    }
+    let new_args = match args {
+        Value::Array(a) => {
+            if ["all", "some", "none"].contains(&key) {
+                // the first operand of the quantifiers has evaluation rules of its own: keep it
+                let mut out = a.clone();
+                for (i, x) in a.iter().enumerate() {
+                    if i >= 1 {
+                        out[i] = strip_logs(x);
+                    }
+                }
+                Value::Array(out)
+            } else {
+                Value::Array(a.iter().map(strip_logs).collect())
+            }
+        }
+        single => {
+            // sugar {"op": x}: if x turns into an array it must be bracketed to stay one operand
+            let st = strip_logs(single);
+            if st.is_array() && !single.is_array() {
+                Value::Array(vec![st])
+            } else {
+                st
+            }
+        }
+    };
+    json!({ key: new_args })
+}
+
+/// (number of single-key {"log": ..} objects anywhere in the rule, whether any iteration operator key occurs)
+pub fn count_logs(v: &Value) -> (usize, bool) {
+    match v {
+        Value::Object(o) => {
+            let mut n = 0;
+            let mut it = false;
+            if o.len() == 1 && o.contains_key("log") {
+                n += 1;
+            }
+            for (k, x) in o {
+                if ITER_OPS.contains(&k.as_str()) {
+                    it = true;
+                }
+                let (a, b) = count_logs(x);
+                n += a;
+                it |= b;
+            }
+            (n, it)
+        }
+        Value::Array(a) => {
+            let mut n = 0;
+            let mut it = false;
+            for x in a {
+                let (c, d) = count_logs(x);
+                n += c;
+                it |= d;
+            }
+            (n, it)
+        }
+        _ => (0, false),
+    }
 }
 
 pub fn diag_run(run: &E1Run) {
@@ -934,6 +1115,28 @@ pub fn recheck_oracle_level(target: &Violation, oracle: &mut Oracle) -> Vec<Viol
             t.expected = format!("{} emitting {:?}", res_text(&a.res), expect_emitted);
             t.got = format!("{} emitting {:?}", res_text(&b.res), b.emitted);
             v.push(t);
+        }
+    } else if target.class == "log-changes-the-result" {
+        if let Ok(rule) = serde_json::from_str::<Value>(&op.args[0]) {
+            let plain = Op::apply(&strip_logs(&rule).to_string(), &op.args[1], false);
+            let a = oracle.query(&op, ORACLE_STACK_KB);
+            let b = oracle.query(&plain, ORACLE_STACK_KB);
+            if a.res != b.res {
+                v.push(target.clone());
+            }
+        }
+    } else if target.class == "more-log-lines-than-log-operators" {
+        if let Ok(rule) = serde_json::from_str::<Value>(&op.args[0]) {
+            let (logs, iterates) = count_logs(&rule);
+            let a = oracle.query(&op, ORACLE_STACK_KB);
+            if !iterates && a.emits > logs as u64 {
+                v.push(target.clone());
+            }
+        }
+    } else if target.class == "log-line-is-not-one-json-text" {
+        let a = oracle.query(&op, ORACLE_STACK_KB);
+        if !a.emitted.is_empty() && (!a.emitted.ends_with('\n') || a.emitted.lines().any(|l| serde_json::from_str::<Value>(l).is_err())) {
+            v.push(target.clone());
         }
     } else if target.class == "isolated-result-not-stable" {
         let a = oracle.query(&op, ORACLE_STACK_KB);
